@@ -20,7 +20,8 @@ BOUNDS = {"quick": {"triples": 12}, "thorough": {"triples": 10 ** 6}}
 ITEM_LIMIT = {"quick": 900, "thorough": 3600}
 
 X, T, U = Space({"x": 1}), Space({"t": 1}), Space({"u": 1})
-MENU = ["pinn_static4", "pinn_grid3", "pinn_static5", "periodic_static", "periodic_grid", "integro", "hpm", "ritz_static"]
+MENU = ["pinn_static4", "pinn_grid3", "pinn_static5", "periodic_static", "periodic_grid", "periodic_empty_static", "integro", "hpm",
+        "ritz_static", "pinn_dom_t", "pinn_dom_k"]
 
 
 class World:
@@ -31,6 +32,11 @@ class World:
         self.model_tx = tp.models.FCN(T * X, U, hidden=(4,))
         self.dom_x = tp.domains.Interval(X, 0.2, 1.4)
         self.dom_t = tp.domains.Interval(T, 0.0, 1.0)
+        self.model_t = tp.models.FCN(T, U, hidden=(3,))
+        # ONE parameter-dependent domain, partially evaluated differently by two conditions
+        self.dom_tk = tp.domains.Interval(X, 0.0, lambda t, k: 1.0 + t + k)
+        self.data_t = {"g": lambda t: 3.0 * t + 1.0}
+        self.data_t_orig = dict(self.data_t)
         self.f = lambda x: x ** 2 + 1.0
         self.g = lambda t, x: 3.0 * t + x
         self.data = {"f": self.f}                 # ONE dict object handed to every condition
@@ -56,6 +62,16 @@ class World:
         def res_hpm(x, f):
             rec.append({"f": f.detach().clone()})
             return x * 0.5 - 0.25 * f
+        def res_per_t(u_left, u_right, g_left, g_right):
+            rec.append({"g_left": g_left.detach().clone(), "g_right": g_right.detach().clone(), "x": torch.zeros(len(g_left), 1)})
+            return (u_left - u_right) + 0.1 * g_left - 0.2 * g_right
+        if kind == "periodic_empty_static":
+            return Cn.PeriodicCondition(self.model_t, self.dom_t, res_per_t, non_periodic_sampler=S.PointSampler.empty(),
+                                        data_functions=self.data_t, name=kind)
+        if kind == "pinn_dom_t":
+            return self._dom_cond(kind, {"t": torch.tensor(0.0)}, "k", rec)
+        if kind == "pinn_dom_k":
+            return self._dom_cond(kind, {"k": torch.tensor(1.0)}, "t", rec)
         if kind == "pinn_static4":
             return Cn.PINNCondition(self.model_x, S.GridSampler(self.dom_x, 4).make_static(), res_pinn, data_functions=self.data, name=kind)
         if kind == "pinn_grid3":
@@ -78,6 +94,27 @@ class World:
         raise ValueError(kind)
 
 
+def _dom_cond(self, kind, fixed, other, rec):
+    """PINN condition on the shared domain with one variable fixed; the other one is sampled by a product sampler"""
+    S, Cn = tp.samplers, tp.conditions
+    dom = self.dom_tk(**fixed)
+    smp = S.GridSampler(dom, 3) * S.GridSampler(tp.domains.Interval(Space({other: 1}), 0.25, 0.75), 2)
+
+    def res(u, x):
+        rec.append({"f": x.detach().clone()})
+        return u - 0.5 * x
+    return Cn.PINNCondition(self.model_x_only(other), smp, res, name=kind)
+
+
+def _model_x_only(self, other):
+    torch.manual_seed(5)
+    return tp.models.FCN(X * Space({other: 1}), U, hidden=(3,))
+
+
+World._dom_cond = _dom_cond
+World.model_x_only = _model_x_only
+
+
 def run_history(events):
     """events: list of ('c', kind) / ('e', kind).  Returns per-kind loss lists, recorded args, dict verdicts."""
     w = World()
@@ -91,7 +128,7 @@ def run_history(events):
         except Exception as e:
             problems.append(("error|%s|%s" % (type(e).__name__, kind), "event %s(%s) raised %s: %s" % (ev, kind, type(e).__name__, str(e)[:120])))
             losses.setdefault(kind, []).append(None)
-        for name, d, orig in (("data", w.data, {"f": w.f}), ("data_tx", w.data_tx, {"g": w.g})):
+        for name, d, orig in (("data", w.data, {"f": w.f}), ("data_tx", w.data_tx, {"g": w.g}), ("data_t", w.data_t, dict(w.data_t_orig))):
             if list(d.keys()) != list(orig.keys()) or any(d[k] is not orig[k] for k in orig):
                 problems.append(("user-dict-modified", "after event %s(%s) the user's data_functions dict holds %s instead of the user's function" % (
                     ev, kind, {k: type(v).__name__ for k, v in d.items()})))
@@ -133,7 +170,7 @@ def run_item(item):
         res["violations"].append({"key": key, "what": what, "detail": {"item": item["name"]}})
 
     if item["name"] == "periodic-sides":
-        for kind in ("periodic_static", "periodic_grid"):
+        for kind in ("periodic_static", "periodic_grid", "periodic_empty_static"):
             losses, rec, problems = run_history([("c", kind), ("e", kind), ("e", kind)])
             res["evals"] += 2
             res["transitions"] += 3
@@ -142,8 +179,8 @@ def run_item(item):
                 viol("C14|%s" % k, msg)
             for r in rec.get(kind, []):
                 x = r["x"]
-                exp_l = 3.0 * 0.0 + x
-                exp_r = 3.0 * 1.0 + x
+                exp_l = 3.0 * 0.0 + x + (1.0 if kind == "periodic_empty_static" else 0.0)
+                exp_r = 3.0 * 1.0 + x + (1.0 if kind == "periodic_empty_static" else 0.0)
                 if r["g_left"].shape != exp_l.shape or not torch.allclose(r["g_left"], exp_l):
                     viol("C14|periodic-left-data|%s" % kind, "%s: g_left passed to the residual is %s, g(t_left=0, x) = %s" % (kind, r["g_left"].reshape(-1).tolist(), exp_l.reshape(-1).tolist()))
                 if r["g_right"].shape != exp_r.shape or not torch.allclose(r["g_right"], exp_r):
